@@ -115,7 +115,8 @@ CHECKS = {
          "Ord/Eq/Hash (a finite set of orderings identical in every run and under every interleaving); every iteration over a "
          "RandomState-hashed container or a hashed container keyed by ObjectId ends in an order-insensitive consumer (22 sites "
          "classified; 11 by confirmed reason); no time/env/random/thread-id calls and no split/test by memory-address alignment "
-         "(align_to, pod_align_to, align_offset) in the compilers or the reader crates they call; every pointer-to-integer cast "
+         "(align_to, pod_align_to, align_offset) in the compilers or the reader crates they call; no use of the result of an atomic "
+         "read-modify-write outside ObjectId::next and no available_parallelism; every pointer-to-integer cast "
          "flows only into address differences, alignment masks or unread fields. Holds for every hash seed, thread interleaving, "
          "prior history and placement of the input bytes.",
     note="Trusted: dependencies' determinism (std, indexmap, kurbo, log); sort-key totality at the two sorted-vec sites; confirmed reasons were read by hand and are keyed per function.",
@@ -147,7 +148,7 @@ CHECKS = {
          "to_path/contour_to_path/emit/finish emit move (seg)* close on every non-Err path; hinting configuration reads the "
          "location only through effective_coords(); for each (hinted, has_variations) case the bytes carved by the scratch-memory "
          "constructors equal (FreeType layout) or are below (HarfBuzz layout) the advertised size and the advertised slack "
-         "covers the total worst-case alignment padding; scratch delta buffers are zero-filled before accumulation and "
+         "covers the total worst-case alignment padding, which rests on slices being carved at align_of::<T>() (checked on the rounding calls); scratch delta buffers are zero-filled before accumulation and "
          "composite deltas are read only where they were written. Not decided: finiteness of coordinates, initialisation of "
          "the remaining scratch buffers.",
     note="Trusted: rustc MIR/type facts. Rust's borrow rules give 'draw(&self) cannot mutate non-interior fields'.",
